@@ -120,6 +120,8 @@ class DataView:
         if f is not None and lo is None and hi is not None and B.is_zero(Aff.of(hi) - f[1]):
             cut = ("cut-at-first", f[0], f[2])
         v = DataView(self.data, self.lo, self.hi, True, self.ops + [cut])
+        if f is not None:
+            v.found = f
         return v
 
     def load_index(self, fr, k, node):
